@@ -43,7 +43,7 @@ from lxml.builder import E
 from lxml.etree import XMLSyntaxError
 from lxml.etree import XMLParser
 
-from spyne import BODY_STYLE_WRAPPED
+from spyne import BODY_STYLE_WRAPPED, BODY_STYLE_BARE
 
 from spyne.util import Break, coroutine
 from spyne.util.six import text_type, string_types
@@ -589,6 +589,11 @@ class XmlDocument(SubXmlBase):
             ctx.in_object = [None] * len(body_class._type_info)
         else:
             ctx.in_object = self.from_element(ctx, body_class, ctx.in_body_doc)
+
+            if ctx.in_object is None and \
+                         ctx.descriptor.body_style is not BODY_STYLE_BARE:
+                # the wrapper element itself is nil: every argument is absent
+                ctx.in_object = [None] * len(body_class._type_info)
 
         if logger.level == logging.DEBUG and message is self.REQUEST:
             line_header = '%sRequest%s' % (LIGHT_GREEN, END_COLOR)
